@@ -30,13 +30,14 @@ fn uw(k: u64) -> String {
 fn emb_of(k: u64) -> Vec<f32> { vec![(k % 7) as f32, ((k / 7) % 7) as f32, ((k / 49) % 7) as f32, 1.0 + (k % 3) as f32] }
 
 #[derive(Clone, Debug)]
-enum Payload { Text(usize), Chunked(usize), Blank(usize), Bin(usize) }
+enum Payload { Text(usize), Chunked(usize), Blank(usize), Bin(usize), Lit(String) }
 
 fn payload_bytes(p: &Payload, k: u64) -> Vec<u8> {
     let mut r = Rng::new(k.wrapping_mul(7919) ^ 0xC28);
     match p {
         Payload::Bin(n) => { let mut v = vec![0xFFu8, 0xFE]; while v.len() < (*n).max(2) { v.push(r.next() as u8); } v }
         Payload::Blank(n) => { let mut v = vec![]; for i in 0..(*n).max(1) { v.push(if i % 3 == 2 { b'\n' } else { b' ' }); } v }
+        Payload::Lit(t) => format!("{} {} {}.", uw(k), COMMON, t).into_bytes(),
         Payload::Text(n) | Payload::Chunked(n) => {
             let mut s = String::new();
             while s.len() < *n {
@@ -112,11 +113,17 @@ fn battery(m: &mut Memvid, words: &[String], no_sketch: bool, with_rest: bool) -
               "date:[2023-11-15 TO 2023-11-20] alpha".into(), format!("date:[2020-01-01 TO 2020-12-31] {}", COMMON), format!("\"{} {}\"", w(2), COMMON)] {
         qs.push((q, None, None));
     }
+    // one frequent and one rare term (profile 4 plants them): hit ORDER and the BM25 score bit patterns depend on the
+    // engine's document statistics, which must be those of the active frames on every handle
+    for q in ["papa OR oscar", "oscar OR papa", "papa OR oscar OR quebec", "oscar OR alpha"] { qs.push((q.to_string(), None, Some("@scores".to_string()))); }
     qs.push((COMMON.to_string(), Some("mv2://u/1".to_string()), None));
     qs.push(("alpha".to_string(), None, Some("mv2://u/".to_string())));
     for (q, uri, scope) in qs {
         let top_k = if q.len() % 2 == 0 { 7 } else { 50 };
+        let with_scores = scope.as_deref() == Some("@scores");
+        let scope = if with_scores { None } else { scope };
         let ans = match m.search(sreq(&q, top_k, no_sketch, uri.as_deref(), scope.as_deref())) {
+            Ok(r) if with_scores => format!("{:?} total={}", r.hits.iter().map(|h| (h.frame_id, h.range, h.score.map(f32::to_bits))).collect::<Vec<_>>(), r.total_hits),
             Ok(r) => format!("{:?} total={}", r.hits.iter().map(|h| (h.frame_id, h.range)).collect::<Vec<_>>(), r.total_hits),
             Err(e) => format!("Err({})", e.to_string().chars().take(40).collect::<String>()),
         };
@@ -247,8 +254,27 @@ pub fn run_history(r: &mut Rng, nops: usize, profile: u64) -> History {
     let mut uri_counter = 0u32;
     let mut doc_ids: BTreeSet<u64> = BTreeSet::new();
     let mut chunked_docs: BTreeSet<u64> = BTreeSet::new();
-    let mut steer: Option<Steer> = if profile >= 3000 { Some(Steer::new((profile - 3000) / 100, (profile - 3000) % 100)) } else { None };
-    let nops = if steer.is_some() { 90 } else { nops };
+    let mut steer: Option<Steer> = if (3000..4000).contains(&profile) { Some(Steer::new((profile - 3000) / 100, (profile - 3000) % 100)) } else { None };
+    // profile 4: documents sharing a filler term, a commit, then a commit that holds ONLY delete_frame tombstones of most
+    // filler documents, then at once the four handles (doctor WITH rebuild_lex_index); (op, read point after it)
+    let script: Option<Vec<(Op, bool)>> = if (4000..5000).contains(&profile) {
+        let variant = profile - 4000;
+        let lit = |t: &str, embed: bool| Op::Put { payload: Payload::Lit(t.to_string()), embed, instant: false, default_opts: false, uri: None, deco: 0 };
+        let k = 4 + r.below(4);                                   // filler documents
+        let mut v: Vec<(Op, bool)> = vec![(lit("papa delta echo", false), false), (lit("oscar delta echo", variant % 2 == 1), false)];
+        if variant >= 2 { v.swap(0, 1); }
+        for j in 0..k { v.push((lit(if j % 2 == 0 { "papa quebec golf" } else { "papa papa quebec" }, false), false)); }
+        v.push((Op::Commit, variant % 2 == 0));
+        if variant == 1 || variant == 3 { v.push((Op::Reopen, false)); }
+        let keep = r.below(2);                                    // leave 0 or 1 filler document
+        for j in 0..(k - keep) { v.push((Op::Delete { target: 2 + j }, false)); }
+        v.push((Op::Commit, true));                               // the delete-only commit
+        v.push((lit("papa hotel india", false), false)); v.push((Op::Commit, true));
+        Some(v)
+    } else { None };
+    let force_lex = script.is_some();
+    if script.is_some() { tags.insert("delete-only-commit".into()); }
+    let nops = if let Some(sc) = script.as_ref() { sc.len() } else if steer.is_some() { 90 } else { nops };
     let mut last_round = false;
     for i in 0..nops {
         if last_round { break; }
@@ -259,7 +285,8 @@ pub fn run_history(r: &mut Rng, nops: usize, profile: u64) -> History {
         let docs: Vec<u64> = (0..n_committed).filter(|j| doc_ids.contains(j)).collect();
         let pick = |r: &mut Rng| -> u64 { if r.chance(1, 8) || docs.is_empty() { n_committed + r.below(2) } else { docs[r.below(docs.len() as u64) as usize] } };
         let steer_before = steer.as_ref().map(|st| st.pos(d.mem()));
-        let op = if let Some(st) = steer.as_mut() { if st.done || i + 1 == nops { Op::Commit } else { st.next(d.mem(), r) } }
+        let op = if let Some(sc) = script.as_ref() { sc[i].0.clone() }
+        else if let Some(st) = steer.as_mut() { if st.done || i + 1 == nops { Op::Commit } else { st.next(d.mem(), r) } }
         else if i + 1 == nops { Op::Commit }
         // profile 1 opens with the verified witness of F-C28-1: an instant-indexed whitespace-only put (no sketch entry), a text put, commit, four handles
         else if profile == 1 && i < 3 { match i { 0 => Op::Put { payload: Payload::Blank(5), embed: false, instant: true, default_opts: false, uri: None, deco: 0 }, 1 => Op::Put { payload: Payload::Text(r.range(60, 300) as usize), embed: r.chance(1, 2), instant: false, default_opts: false, uri: None, deco: 0 }, _ => Op::Commit } }
@@ -307,7 +334,7 @@ pub fn run_history(r: &mut Rng, nops: usize, profile: u64) -> History {
                 let auto = auto_oracle(d.mem(), wal_seq_before, 1 + nch);
                 if ok {
                     let id = frames_ref.len() as u64;
-                    let is_text = matches!(payload, Payload::Text(_) | Payload::Chunked(_));
+                    let is_text = matches!(payload, Payload::Text(_) | Payload::Chunked(_) | Payload::Lit(_));
                     frames_ref.push((k, is_text)); bits_known.push(None); doc_ids.insert(id);
                     for _ in 0..nch { frames_ref.push((k, true)); bits_known.push(None); }
                     if is_text { words_used.push(k); pending_texts.push((id, String::from_utf8_lossy(&bytes).to_string())); }
@@ -383,11 +410,11 @@ pub fn run_history(r: &mut Rng, nops: usize, profile: u64) -> History {
         let is_boundary = matches!(op, Op::Commit | Op::Reopen | Op::Crash);
         let mut forced = false;
         if let (Some(st), Some(b)) = (steer.as_mut(), steer_before) { st.observe(&op, b, d.mem.as_ref().unwrap(), &mut tags); if quiet && st.force_point && matches!(op, Op::Commit) { forced = true; st.force_point = false; } }
-        let want_point = if steer.is_some() { forced || last_round } else { i + 1 == nops || (profile == 1 && i == 2) || (is_boundary && r.chance(2, 3)) || r.chance(1, 6) };
+        let want_point = if let Some(sc) = script.as_ref() { sc[i].1 } else if steer.is_some() { forced || last_round } else { i + 1 == nops || (profile == 1 && i == 2) || (is_boundary && r.chance(2, 3)) || r.chance(1, 6) };
         if quiet && want_point && n_points < (if steer.is_some() { 5 } else { 4 }) {
             // ---------- the four handles ----------
             n_points += 1;
-            let lexf = r.chance(2, 3); let timef = !lexf || r.chance(1, 2); let vecf = r.chance(1, 2);
+            let lexf = force_lex || r.chance(2, 3); let timef = !lexf || r.chance(1, 2); let vecf = r.chance(1, 2);
             if vecf { tags.insert("doctor-rebuild-vec".into()); }
             let p_rw = copy_to(&d.path, scratch.path(), "rw.mv2");
             let p_ro = copy_to(&d.path, scratch.path(), "ro.mv2");
@@ -432,7 +459,7 @@ pub fn run_history(r: &mut Rng, nops: usize, profile: u64) -> History {
             if obs.len() == 4 { if obs[0].coq() != obs[1].coq() { differing_sets = true; } }
             ops_t.push(T::C("CRead", vec![T::N(0), T::B(lexf), T::B(timef), T::B(vecf)]));
             points.push(T::Tup(obs));
-        } else if !quiet && steer.is_none() && (profile == 2 || r.chance(1, 3)) && n_peeks < 6 {
+        } else if !quiet && steer.is_none() && script.is_none() && (profile == 2 || r.chance(1, 3)) && n_peeks < 6 {
             // ---------- between a put and its commit ----------
             n_peeks += 1; tags.insert("read-while-pending".into());
             let mut ids: Vec<u64> = match d.mem().search(sreq(COMMON, 5000, true, None, None)) { Ok(resp) => resp.hits.iter().map(|h| h.frame_id).collect(), Err(_) => vec![] };
@@ -468,8 +495,8 @@ pub fn run_history(r: &mut Rng, nops: usize, profile: u64) -> History {
             pm_args[1] = T::L(bits);
         } }
     }
-    if profile >= 3000 { tags.insert(format!("target-room:{}", (profile - 3000) % 100 * 100)); }
-    tags.insert(if profile >= 3000 { format!("profile3-variant{}", (profile - 3000) / 100) } else { format!("profile{}", profile) });
+    if (3000..4000).contains(&profile) { tags.insert(format!("target-room:{}", (profile - 3000) % 100 * 100)); }
+    tags.insert(if profile >= 4000 { format!("profile4-variant{}", profile - 4000) } else if profile >= 3000 { format!("profile3-variant{}", (profile - 3000) / 100) } else { format!("profile{}", profile) });
     if differing_sets { tags.insert("live-and-reopened-sets-differ".into()); }
     let nontrivial = n_points > 0 && frames_ref.len() >= 3 && (profile != 1 || sketch_nondense_seen || true) && (profile != 2 || n_peeks > 0);
     History { ops: ops_t, outs, points, peeks, violation: viol.or(known), tags: tags.into_iter().collect(), nontrivial }
@@ -503,13 +530,14 @@ pub fn run(seed: u64, n: usize, w: &mut dyn std::io::Write) {
     if std::env::var("MV_KEEP_TMPDIR").is_err() && std::env::var("TMPDIR").is_err() && std::path::Path::new("/dev/shm").is_dir() { std::env::set_var("TMPDIR", "/dev/shm"); }
     let mut r = Rng::new(seed ^ 0xC28);
     // seeds 28000..28999 are the fixed-first corpus: log-growth histories only
-    let corpus = (28000..29000).contains(&seed);
+    let corpus = (28000..28100).contains(&seed);
+    let corpus_del = (28100..28200).contains(&seed);   // fixed-first corpus: delete-only commits
     let sweep = r.below(13);
     let plans: Vec<(u64, usize, u64)> = (0..n).map(|i| {
-        let g = if corpus { i } else { i / 4 };
+        let g = if corpus { i } else { i / 5 };
         // remaining room at the commit swept in steps of 100 bytes across histories (and runs); variants rotate
         let growth = if corpus { 3000 + [0u64, 3, 2, 1][g % 4] * 100 + [3u64, 6, 0, 2][g % 4] } else { 3000 + ((g as u64 + seed) % 4) * 100 + (sweep + 5 * g as u64) % 13 };
-        let profile = if corpus { growth } else { match i % 4 { 3 => growth, k => k as u64 } };
+        let profile = if corpus { growth } else if corpus_del { 4000 + (i as u64 + seed) % 4 } else { match i % 5 { 3 => growth, 4 => 4000 + (g as u64 + seed) % 4, k => k as u64 } };
         let nops = r.range(6, 22) as usize; (r.next(), nops, profile) }).collect();
     if let Ok(k) = std::env::var("MV_C28_ONLY") { let k: usize = k.parse().unwrap(); let (sd, nops, profile) = plans[k]; let mut hr = Rng(sd); let h = run_history(&mut hr, nops, profile); eprintln!("viol {:?} tags {:?}", h.violation, h.tags); return; }
     let workers = 6usize;
